@@ -1,30 +1,30 @@
 (* Ownership model (C18): which C function allocates, frees and dereferences which object, with
    the k-th allocation failing.  Only liveness is modelled: a heap cell is an id that is live or
-   not; struct fields that hold pointers are [oid] fields of small records (None = NULL).  Each
+   not; struct fields that hold pointers are [ow_oid] fields of small records (None = NULL).  Each
    definition transcribes one C function, ONE allocation event per C allocation, in the C order,
    every error path included.  Contents of containers that matter to ownership (table keys,
    builder pieces, hook callbacks, header structs) are kept by the owner next to the ring-buffer
    *shape* (block, first, max, size); Proof/PList.v (C17) covers the ring contents themselves. *)
 Require Import Htp.Model.Base.
 
-Definition oid := option nat.
+Definition ow_oid := option nat.
 
-Inductive ow_ev := EvA (i : nat) | EvX | EvF (i : nat) | EvR (o n : nat).
+Inductive ow_ev := OwEvA (i : nat) | OwEvX | OwEvF (i : nat) | OwEvR (o n : nat).
 
-Record ow_state := mk_os {
-  os_sched : nat -> bool;     (* true = the n-th allocation (0-based) fails *)
-  os_next : nat;              (* next fresh id *)
-  os_cnt : nat;               (* allocations attempted so far *)
-  os_live : list nat;
-  os_trace : list ow_ev       (* newest first *)
+Record ow_state := ow_mk_os {
+  oos_sched : nat -> bool;     (* true = the n-th allocation (0-based) fails *)
+  oos_next : nat;              (* next fresh id *)
+  oos_cnt : nat;               (* allocations attempted so far *)
+  oos_live : list nat;
+  oos_trace : list ow_ev       (* newest first *)
 }.
 
 Inductive ow_res (A : Type) := OwOk (a : A) (s : ow_state) | OwFault (code : nat) (s : ow_state).
 Arguments OwOk {A}. Arguments OwFault {A}.
 
-Definition M (A : Type) := ow_state -> ow_res A.
-Definition ow_ret {A} (a : A) : M A := fun s => OwOk a s.
-Definition ow_bind {A B} (m : M A) (f : A -> M B) : M B :=
+Definition ow_M (A : Type) := ow_state -> ow_res A.
+Definition ow_ret {A} (a : A) : ow_M A := fun s => OwOk a s.
+Definition ow_bind {A B} (m : ow_M A) (f : A -> ow_M B) : ow_M B :=
   fun s => match m s with OwOk a s' => f a s' | OwFault c s' => OwFault c s' end.
 Notation "x <- m ;; f" := (ow_bind m (fun x => f)) (at level 61, m at next level, right associativity).
 Notation "m ;;; f" := (ow_bind m (fun _ => f)) (at level 61, right associativity).
@@ -33,82 +33,82 @@ Definition ow_mem (i : nat) (l : list nat) : bool := existsb (Nat.eqb i) l.
 Definition ow_del (i : nat) (l : list nat) : list nat := filter (fun j => negb (Nat.eqb i j)) l.
 
 (* fault codes: 1 free of a non-live cell (double / invalid free), 2 use after free, 3 NULL dereference *)
-Definition ow_malloc : M oid := fun s =>
-  if os_sched s (os_cnt s)
-  then OwOk None (mk_os (os_sched s) (os_next s) (S (os_cnt s)) (os_live s) (EvX :: os_trace s))
-  else OwOk (Some (os_next s))
-            (mk_os (os_sched s) (S (os_next s)) (S (os_cnt s)) (os_next s :: os_live s) (EvA (os_next s) :: os_trace s)).
+Definition ow_malloc : ow_M ow_oid := fun s =>
+  if oos_sched s (oos_cnt s)
+  then OwOk None (ow_mk_os (oos_sched s) (oos_next s) (S (oos_cnt s)) (oos_live s) (OwEvX :: oos_trace s))
+  else OwOk (Some (oos_next s))
+            (ow_mk_os (oos_sched s) (S (oos_next s)) (S (oos_cnt s)) (oos_next s :: oos_live s) (OwEvA (oos_next s) :: oos_trace s)).
 
-Definition ow_free (p : oid) : M unit := fun s =>
+Definition ow_free (p : ow_oid) : ow_M unit := fun s =>
   match p with
   | None => OwOk tt s
-  | Some i => if ow_mem i (os_live s)
-              then OwOk tt (mk_os (os_sched s) (os_next s) (os_cnt s) (ow_del i (os_live s)) (EvF i :: os_trace s))
+  | Some i => if ow_mem i (oos_live s)
+              then OwOk tt (ow_mk_os (oos_sched s) (oos_next s) (oos_cnt s) (ow_del i (oos_live s)) (OwEvF i :: oos_trace s))
               else OwFault 1 s
   end.
 
-Definition ow_use (p : oid) : M unit := fun s =>
+Definition ow_use (p : ow_oid) : ow_M unit := fun s =>
   match p with
   | None => OwFault 3 s
-  | Some i => if ow_mem i (os_live s) then OwOk tt s else OwFault 2 s
+  | Some i => if ow_mem i (oos_live s) then OwOk tt s else OwFault 2 s
   end.
 
 (* realloc: NULL -> malloc; success = free old + allocate new (whether or not the block moves);
    failure leaves the old block alone *)
-Definition ow_realloc (p : oid) : M oid := fun s =>
+Definition ow_realloc (p : ow_oid) : ow_M ow_oid := fun s =>
   match p with
   | None => ow_malloc s
   | Some i =>
-    if ow_mem i (os_live s) then
-      if os_sched s (os_cnt s)
-      then OwOk None (mk_os (os_sched s) (os_next s) (S (os_cnt s)) (os_live s) (EvX :: os_trace s))
-      else OwOk (Some (os_next s))
-                (mk_os (os_sched s) (S (os_next s)) (S (os_cnt s)) (os_next s :: ow_del i (os_live s))
-                       (EvR i (os_next s) :: os_trace s))
+    if ow_mem i (oos_live s) then
+      if oos_sched s (oos_cnt s)
+      then OwOk None (ow_mk_os (oos_sched s) (oos_next s) (S (oos_cnt s)) (oos_live s) (OwEvX :: oos_trace s))
+      else OwOk (Some (oos_next s))
+                (ow_mk_os (oos_sched s) (S (oos_next s)) (S (oos_cnt s)) (oos_next s :: ow_del i (oos_live s))
+                       (OwEvR i (oos_next s) :: oos_trace s))
     else OwFault 2 s
   end.
 
-Definition ow_isnull (p : oid) : bool := match p with None => true | Some _ => false end.
+Definition ow_isnull (p : ow_oid) : bool := match p with None => true | Some _ => false end.
 
-Fixpoint ow_iter {A} (f : A -> M unit) (l : list A) : M unit :=
+Fixpoint ow_iter {A} (f : A -> ow_M unit) (l : list A) : ow_M unit :=
   match l with
   | [] => ow_ret tt
   | a :: r => f a ;;; ow_iter f r
   end.
 
 (* ------------------------------------------------------------------ bstr.c *)
-Definition ow_bstr_alloc : M oid := ow_malloc.
-Definition ow_bstr_dup_mem : M oid := ow_bstr_alloc.
+Definition ow_bstr_alloc : ow_M ow_oid := ow_malloc.
+Definition ow_bstr_dup_mem : ow_M ow_oid := ow_bstr_alloc.
 (* bstr_dup / bstr_dup_ex: reads the source (length), allocates, copies *)
-Definition ow_bstr_dup (b : oid) : M oid :=
+Definition ow_bstr_dup (b : ow_oid) : ow_M ow_oid :=
   ow_use b ;;;
   n <- ow_bstr_alloc ;;
   match n with None => ow_ret None | Some _ => ow_use b ;;; ow_ret n end.
 (* bstr_expand: refuses wrapped strings and shrinking *)
-Definition ow_bstr_expand (b : oid) (wrapped shrink : bool) : M oid :=
+Definition ow_bstr_expand (b : ow_oid) (wrapped shrink : bool) : ow_M ow_oid :=
   ow_use b ;;;
   if wrapped then ow_ret None else if shrink then ow_ret None else
   n <- ow_realloc b ;;
   match n with None => ow_ret None | Some _ => ow_use n ;;; ow_ret n end.
 (* bstr_add_mem: expands when the data does not fit *)
-Definition ow_bstr_add_mem (b : oid) (wrapped fits : bool) : M oid :=
+Definition ow_bstr_add_mem (b : ow_oid) (wrapped fits : bool) : ow_M ow_oid :=
   ow_use b ;;;
   if fits then ow_ret b else
   d <- ow_bstr_expand b wrapped false ;;
   match d with None => ow_ret None | Some _ => ow_use d ;;; ow_ret d end.
 
 (* ------------------------------------------------------------------ htp_list.c (array-backed) *)
-(* ol_self: the cell that holds the htp_list_array_t itself (the container for an embedded list) *)
-Record ow_lst := mk_lst { ol_self : oid; ol_blk : oid; ol_first : nat; ol_max : nat; ol_size : nat }.
+(* ool_self: the cell that holds the htp_list_array_t itself (the container for an embedded list) *)
+Record ow_lst := ow_mk_lst { ool_self : ow_oid; ool_blk : ow_oid; ool_first : nat; ool_max : nat; ool_size : nat }.
 
-Definition ow_list_init (self : oid) (size : nat) : M (option ow_lst) :=
+Definition ow_list_init (self : ow_oid) (size : nat) : ow_M (option ow_lst) :=
   b <- ow_malloc ;;
   match b with
   | None => ow_ret None
-  | Some _ => ow_use self ;;; ow_ret (Some (mk_lst self b 0 size 0))
+  | Some _ => ow_use self ;;; ow_ret (Some (ow_mk_lst self b 0 size 0))
   end.
 
-Definition ow_list_create (size : nat) : M (option ow_lst) :=
+Definition ow_list_create (size : nat) : ow_M (option ow_lst) :=
   if size =? 0 then ow_ret None else
   l <- ow_malloc ;;
   match l with
@@ -121,46 +121,46 @@ Definition ow_list_create (size : nat) : M (option ow_lst) :=
     end
   end.
 
-Definition ow_list_destroy (l : option ow_lst) : M unit :=
+Definition ow_list_destroy (l : option ow_lst) : ow_M unit :=
   match l with
   | None => ow_ret tt
-  | Some l => ow_use (ol_self l) ;;; ow_free (ol_blk l) ;;; ow_free (ol_self l)
+  | Some l => ow_use (ool_self l) ;;; ow_free (ool_blk l) ;;; ow_free (ool_self l)
   end.
 
-Definition ow_list_release (l : ow_lst) : M unit := ow_use (ol_self l) ;;; ow_free (ol_blk l).
+Definition ow_list_release (l : ow_lst) : ow_M unit := ow_use (ool_self l) ;;; ow_free (ool_blk l).
 
-Definition ow_list_push (l : ow_lst) : M (bool * ow_lst) :=
-  ow_use (ol_self l) ;;;
-  if ol_max l <=? ol_size l then
-    if ol_first l =? 0 then
-      nb <- ow_realloc (ol_blk l) ;;
+Definition ow_list_push (l : ow_lst) : ow_M (bool * ow_lst) :=
+  ow_use (ool_self l) ;;;
+  if ool_max l <=? ool_size l then
+    if ool_first l =? 0 then
+      nb <- ow_realloc (ool_blk l) ;;
       match nb with
       | None => ow_ret (false, l)
-      | Some _ => ow_use nb ;;; ow_ret (true, mk_lst (ol_self l) nb 0 (ol_max l * 2) (S (ol_size l)))
+      | Some _ => ow_use nb ;;; ow_ret (true, ow_mk_lst (ool_self l) nb 0 (ool_max l * 2) (S (ool_size l)))
       end
     else
       nb <- ow_malloc ;;
       match nb with
       | None => ow_ret (false, l)
       | Some _ =>
-        ow_use (ol_blk l) ;;; ow_use nb ;;;          (* the two memcpy *)
-        ow_free (ol_blk l) ;;;
-        ow_use nb ;;; ow_ret (true, mk_lst (ol_self l) nb 0 (ol_max l * 2) (S (ol_size l)))
+        ow_use (ool_blk l) ;;; ow_use nb ;;;          (* the two memcpy *)
+        ow_free (ool_blk l) ;;;
+        ow_use nb ;;; ow_ret (true, ow_mk_lst (ool_self l) nb 0 (ool_max l * 2) (S (ool_size l)))
       end
   else
-    ow_use (ol_blk l) ;;; ow_ret (true, mk_lst (ol_self l) (ol_blk l) (ol_first l) (ol_max l) (S (ol_size l))).
+    ow_use (ool_blk l) ;;; ow_ret (true, ow_mk_lst (ool_self l) (ool_blk l) (ool_first l) (ool_max l) (S (ool_size l))).
 
 Definition ow_list_pop (l : ow_lst) : ow_lst :=
-  if ol_size l =? 0 then l else mk_lst (ol_self l) (ol_blk l) (ol_first l) (ol_max l) (ol_size l - 1).
+  if ool_size l =? 0 then l else ow_mk_lst (ool_self l) (ool_blk l) (ool_first l) (ool_max l) (ool_size l - 1).
 Definition ow_list_shift (l : ow_lst) : ow_lst :=
-  if ol_size l =? 0 then l
-  else mk_lst (ol_self l) (ol_blk l) (if S (ol_first l) =? ol_max l then 0 else S (ol_first l)) (ol_max l) (ol_size l - 1).
-Definition ow_list_clear (l : ow_lst) : ow_lst := mk_lst (ol_self l) (ol_blk l) 0 (ol_max l) 0.
+  if ool_size l =? 0 then l
+  else ow_mk_lst (ool_self l) (ool_blk l) (if S (ool_first l) =? ool_max l then 0 else S (ool_first l)) (ool_max l) (ool_size l - 1).
+Definition ow_list_clear (l : ow_lst) : ow_lst := ow_mk_lst (ool_self l) (ool_blk l) 0 (ool_max l) 0.
 
 (* ------------------------------------------------------------------ htp_table.c *)
-Record ow_tbl := mk_tbl { ot_self : oid; ot_mode : nat; ot_lst : ow_lst; ot_keys : list oid }.
+Record ow_tbl := ow_mk_tbl { oot_self : ow_oid; oot_mode : nat; oot_lst : ow_lst; oot_keys : list ow_oid }.
 
-Definition ow_table_create (size : nat) : M (option ow_tbl) :=
+Definition ow_table_create (size : nat) : ow_M (option ow_tbl) :=
   if size =? 0 then ow_ret None else
   t <- ow_malloc ;;
   match t with
@@ -169,25 +169,25 @@ Definition ow_table_create (size : nat) : M (option ow_tbl) :=
     l <- ow_list_init t (size * 2) ;;
     match l with
     | None => ow_free t ;;; ow_ret None
-    | Some l => ow_ret (Some (mk_tbl t c_ow_KEYS_UNKNOWN l []))
+    | Some l => ow_ret (Some (ow_mk_tbl t c_ow_KEYS_UNKNOWN l []))
     end
   end.
 
 (* _htp_table_add: key, then element; the key is popped again when the element cannot be added *)
-Definition ow_table_add_raw (t : ow_tbl) (key : oid) : M (bool * ow_tbl) :=
-  r1 <- ow_list_push (ot_lst t) ;;
-  if negb (fst r1) then ow_ret (false, mk_tbl (ot_self t) (ot_mode t) (snd r1) (ot_keys t)) else
+Definition ow_table_add_raw (t : ow_tbl) (key : ow_oid) : ow_M (bool * ow_tbl) :=
+  r1 <- ow_list_push (oot_lst t) ;;
+  if negb (fst r1) then ow_ret (false, ow_mk_tbl (oot_self t) (oot_mode t) (snd r1) (oot_keys t)) else
   r2 <- ow_list_push (snd r1) ;;
-  if negb (fst r2) then ow_ret (false, mk_tbl (ot_self t) (ot_mode t) (ow_list_pop (snd r2)) (ot_keys t))
-  else ow_ret (true, mk_tbl (ot_self t) (ot_mode t) (snd r2) (ot_keys t ++ [key])).
+  if negb (fst r2) then ow_ret (false, ow_mk_tbl (oot_self t) (oot_mode t) (ow_list_pop (snd r2)) (oot_keys t))
+  else ow_ret (true, ow_mk_tbl (oot_self t) (oot_mode t) (snd r2) (oot_keys t ++ [key])).
 
-Definition ow_table_set_mode (t : ow_tbl) (m : nat) : ow_tbl := mk_tbl (ot_self t) m (ot_lst t) (ot_keys t).
+Definition ow_table_set_mode (t : ow_tbl) (m : nat) : ow_tbl := ow_mk_tbl (oot_self t) m (oot_lst t) (oot_keys t).
 
 (* htp_table_add: the key is copied; the copy is freed when it cannot be stored *)
-Definition ow_table_add (t : ow_tbl) (key : oid) : M (bool * ow_tbl) :=
+Definition ow_table_add (t : ow_tbl) (key : ow_oid) : ow_M (bool * ow_tbl) :=
   if ow_isnull key then ow_ret (false, t) else
-  ow_use (ot_self t) ;;;
-  if (ot_mode t =? c_ow_KEYS_UNKNOWN) || (ot_mode t =? c_ow_KEYS_COPIED) then
+  ow_use (oot_self t) ;;;
+  if (oot_mode t =? c_ow_KEYS_UNKNOWN) || (oot_mode t =? c_ow_KEYS_COPIED) then
     let t1 := ow_table_set_mode t c_ow_KEYS_COPIED in
     d <- ow_bstr_dup key ;;
     match d with
@@ -199,31 +199,31 @@ Definition ow_table_add (t : ow_tbl) (key : oid) : M (bool * ow_tbl) :=
   else ow_ret (false, t).
 
 (* htp_table_addn (mode = ADOPTED) / htp_table_addk (mode = REFERENCED): the key pointer itself is stored *)
-Definition ow_table_add_nk (mode : nat) (t : ow_tbl) (key : oid) : M (bool * ow_tbl) :=
+Definition ow_table_add_nk (mode : nat) (t : ow_tbl) (key : ow_oid) : ow_M (bool * ow_tbl) :=
   if ow_isnull key then ow_ret (false, t) else
-  ow_use (ot_self t) ;;;
-  if (ot_mode t =? c_ow_KEYS_UNKNOWN) || (ot_mode t =? mode) then
+  ow_use (oot_self t) ;;;
+  if (oot_mode t =? c_ow_KEYS_UNKNOWN) || (oot_mode t =? mode) then
     ow_table_add_raw (ow_table_set_mode t mode) key
   else ow_ret (false, t).
 Definition ow_table_addn := ow_table_add_nk c_ow_KEYS_ADOPTED.
 Definition ow_table_addk := ow_table_add_nk c_ow_KEYS_REFERENCED.
 
-Definition ow_table_clear (t : ow_tbl) : M ow_tbl :=
-  ow_use (ot_self t) ;;;
-  (if (ot_mode t =? c_ow_KEYS_COPIED) || (ot_mode t =? c_ow_KEYS_ADOPTED)
-   then ow_iter ow_free (ot_keys t) else ow_ret tt) ;;;
-  ow_ret (mk_tbl (ot_self t) (ot_mode t) (ow_list_clear (ot_lst t)) []).
+Definition ow_table_clear (t : ow_tbl) : ow_M ow_tbl :=
+  ow_use (oot_self t) ;;;
+  (if (oot_mode t =? c_ow_KEYS_COPIED) || (oot_mode t =? c_ow_KEYS_ADOPTED)
+   then ow_iter ow_free (oot_keys t) else ow_ret tt) ;;;
+  ow_ret (ow_mk_tbl (oot_self t) (oot_mode t) (ow_list_clear (oot_lst t)) []).
 
-Definition ow_table_destroy (t : option ow_tbl) : M unit :=
+Definition ow_table_destroy (t : option ow_tbl) : ow_M unit :=
   match t with
   | None => ow_ret tt
-  | Some t => t1 <- ow_table_clear t ;; ow_list_release (ot_lst t1) ;;; ow_free (ot_self t1)
+  | Some t => t1 <- ow_table_clear t ;; ow_list_release (oot_lst t1) ;;; ow_free (oot_self t1)
   end.
 
 (* ------------------------------------------------------------------ bstr_builder.c *)
-Record ow_bb := mk_bb { bb_self : oid; bb_lst : ow_lst; bb_pieces : list oid }.
+Record ow_bb := ow_mk_bb { obb_self : ow_oid; obb_lst : ow_lst; obb_pieces : list ow_oid }.
 
-Definition ow_builder_create : M (option ow_bb) :=
+Definition ow_builder_create : ow_M (option ow_bb) :=
   b <- ow_malloc ;;
   match b with
   | None => ow_ret None
@@ -231,51 +231,53 @@ Definition ow_builder_create : M (option ow_bb) :=
     l <- ow_list_create c_ow_builder_cap ;;
     match l with
     | None => ow_free b ;;; ow_ret None
-    | Some l => ow_ret (Some (mk_bb b l []))
+    | Some l => ow_ret (Some (ow_mk_bb b l []))
     end
   end.
 
 (* bstr_builder_append_mem (after faef489): the new piece is freed when the push fails *)
-Definition ow_builder_append_mem (bb : ow_bb) : M (bool * ow_bb) :=
+Definition ow_builder_append_mem_gen (fixed : bool) (bb : ow_bb) : ow_M (bool * ow_bb) :=
   b <- ow_bstr_dup_mem ;;
   match b with
   | None => ow_ret (false, bb)
   | Some _ =>
-    ow_use (bb_self bb) ;;;
-    r <- ow_list_push (bb_lst bb) ;;
-    if fst r then ow_ret (true, mk_bb (bb_self bb) (snd r) (bb_pieces bb ++ [b]))
-    else ow_free b ;;; ow_ret (false, mk_bb (bb_self bb) (snd r) (bb_pieces bb))
+    ow_use (obb_self bb) ;;;
+    r <- ow_list_push (obb_lst bb) ;;
+    if fst r then ow_ret (true, ow_mk_bb (obb_self bb) (snd r) (obb_pieces bb ++ [b]))
+    else (if fixed then ow_free b else ow_ret tt) ;;; ow_ret (false, ow_mk_bb (obb_self bb) (snd r) (obb_pieces bb))
   end.
+Definition ow_builder_append_mem := ow_builder_append_mem_gen true.
+Definition ow_builder_append_mem_old := ow_builder_append_mem_gen false.
 
-Definition ow_builder_clear (bb : ow_bb) : M ow_bb :=
-  ow_use (bb_self bb) ;;; ow_use (ol_self (bb_lst bb)) ;;;
-  if ol_size (bb_lst bb) =? 0 then ow_ret bb else
-  ow_iter ow_free (bb_pieces bb) ;;;
-  ow_ret (mk_bb (bb_self bb) (ow_list_clear (bb_lst bb)) []).
+Definition ow_builder_clear (bb : ow_bb) : ow_M ow_bb :=
+  ow_use (obb_self bb) ;;; ow_use (ool_self (obb_lst bb)) ;;;
+  if ool_size (obb_lst bb) =? 0 then ow_ret bb else
+  ow_iter ow_free (obb_pieces bb) ;;;
+  ow_ret (ow_mk_bb (obb_self bb) (ow_list_clear (obb_lst bb)) []).
 
-Definition ow_builder_destroy (bb : option ow_bb) : M unit :=
+Definition ow_builder_destroy (bb : option ow_bb) : ow_M unit :=
   match bb with
   | None => ow_ret tt
   | Some bb =>
-    ow_use (bb_self bb) ;;;
-    ow_iter ow_free (bb_pieces bb) ;;;
-    ow_list_destroy (Some (bb_lst bb)) ;;;
-    ow_free (bb_self bb)
+    ow_use (obb_self bb) ;;;
+    ow_iter ow_free (obb_pieces bb) ;;;
+    ow_list_destroy (Some (obb_lst bb)) ;;;
+    ow_free (obb_self bb)
   end.
 
-Definition ow_builder_to_str (bb : ow_bb) : M oid :=
-  ow_use (bb_self bb) ;;;
-  ow_iter ow_use (bb_pieces bb) ;;;
+Definition ow_builder_to_str (bb : ow_bb) : ow_M ow_oid :=
+  ow_use (obb_self bb) ;;;
+  ow_iter ow_use (obb_pieces bb) ;;;
   n <- ow_bstr_alloc ;;
   match n with
   | None => ow_ret None
-  | Some _ => ow_iter (fun p => ow_use p ;;; ow_use n) (bb_pieces bb) ;;; ow_ret n
+  | Some _ => ow_iter (fun p => ow_use p ;;; ow_use n) (obb_pieces bb) ;;; ow_ret n
   end.
 
 (* ------------------------------------------------------------------ htp_hooks.c *)
-Record ow_hook := mk_hook { hk_self : oid; hk_lst : ow_lst; hk_cbs : list oid }.
+Record ow_hook := ow_mk_hook { ohk_self : ow_oid; ohk_lst : ow_lst; ohk_cbs : list ow_oid }.
 
-Definition ow_hook_create : M (option ow_hook) :=
+Definition ow_hook_create : ow_M (option ow_hook) :=
   h <- ow_malloc ;;
   match h with
   | None => ow_ret None
@@ -283,23 +285,23 @@ Definition ow_hook_create : M (option ow_hook) :=
     l <- ow_list_create c_ow_hook_cap ;;
     match l with
     | None => ow_free h ;;; ow_ret None
-    | Some l => ow_ret (Some (mk_hook h l []))
+    | Some l => ow_ret (Some (ow_mk_hook h l []))
     end
   end.
 
-Definition ow_hook_destroy (h : option ow_hook) : M unit :=
+Definition ow_hook_destroy (h : option ow_hook) : ow_M unit :=
   match h with
   | None => ow_ret tt
   | Some h =>
-    ow_use (hk_self h) ;;;
-    ow_iter ow_free (hk_cbs h) ;;;
-    ow_list_destroy (Some (hk_lst h)) ;;;
-    ow_free (hk_self h)
+    ow_use (ohk_self h) ;;;
+    ow_iter ow_free (ohk_cbs h) ;;;
+    ow_list_destroy (Some (ohk_lst h)) ;;;
+    ow_free (ohk_self h)
   end.
 
 (* htp_hook_register: the hook slot may hold NULL; on a failed push a hook created here is released with a
    plain free of the hook struct (its list is not released and the slot keeps pointing to it) -- transcribed as is *)
-Definition ow_hook_register (hook : option ow_hook) : M (bool * option ow_hook) :=
+Definition ow_hook_register (hook : option ow_hook) : ow_M (bool * option ow_hook) :=
   cb <- ow_malloc ;;
   match cb with
   | None => ow_ret (false, hook)
@@ -312,18 +314,18 @@ Definition ow_hook_register (hook : option ow_hook) : M (bool * option ow_hook) 
     match hc with
     | None => ow_free cb ;;; ow_ret (false, None)
     | Some (created, h) =>
-      ow_use (hk_self h) ;;;
-      r <- ow_list_push (hk_lst h) ;;
-      if fst r then ow_ret (true, Some (mk_hook (hk_self h) (snd r) (hk_cbs h ++ [cb])))
+      ow_use (ohk_self h) ;;;
+      r <- ow_list_push (ohk_lst h) ;;
+      if fst r then ow_ret (true, Some (ow_mk_hook (ohk_self h) (snd r) (ohk_cbs h ++ [cb])))
       else
-        (if created then ow_free (hk_self h) else ow_ret tt) ;;;
+        (if created then ow_free (ohk_self h) else ow_ret tt) ;;;
         ow_free cb ;;;
-        ow_ret (false, Some (mk_hook (hk_self h) (snd r) (hk_cbs h)))
+        ow_ret (false, Some (ow_mk_hook (ohk_self h) (snd r) (ohk_cbs h)))
     end
   end.
 
 (* the loop of htp_hook_copy: register every callback of the source into the copy *)
-Fixpoint ow_hook_copy_loop (cbs : list oid) (copy : ow_hook) : M (option ow_hook) :=
+Fixpoint ow_hook_copy_loop (cbs : list ow_oid) (copy : ow_hook) : ow_M (option ow_hook) :=
   match cbs with
   | [] => ow_ret (Some copy)
   | c :: r =>
@@ -334,86 +336,86 @@ Fixpoint ow_hook_copy_loop (cbs : list oid) (copy : ow_hook) : M (option ow_hook
     else ow_hook_destroy (snd x) ;;; ow_ret None
   end.
 
-Definition ow_hook_copy (hook : option ow_hook) : M (option ow_hook) :=
+Definition ow_hook_copy (hook : option ow_hook) : ow_M (option ow_hook) :=
   match hook with
   | None => ow_ret None
   | Some h =>
     c <- ow_hook_create ;;
     match c with
     | None => ow_ret None
-    | Some c => ow_use (hk_self h) ;;; ow_hook_copy_loop (hk_cbs h) c
+    | Some c => ow_use (ohk_self h) ;;; ow_hook_copy_loop (ohk_cbs h) c
     end
   end.
 
 (* ------------------------------------------------------------------ headers, uri, transactions *)
-Record ow_hdr := mk_hdr { hd_self : oid; hd_name : oid; hd_value : oid }.   (* also htp_param_t: name, value *)
-Record ow_uri := mk_uri { ur_self : oid; ur_fields : list oid }.   (* scheme username password hostname port path query fragment *)
-Record ow_log := mk_log { lg_self : oid; lg_msg : oid }.
+Record ow_hdr := ow_mk_hdr { ohd_self : ow_oid; ohd_name : ow_oid; ohd_value : ow_oid }.   (* also htp_param_t: name, value *)
+Record ow_uri := ow_mk_uri { our_self : ow_oid; our_fields : list ow_oid }.   (* scheme username password hostname port path query fragment *)
+Record ow_log := ow_mk_log { olg_self : ow_oid; olg_msg : ow_oid }.
 
-Definition ow_hdr_free (h : ow_hdr) : M unit :=
-  ow_use (hd_self h) ;;; ow_free (hd_name h) ;;; ow_free (hd_value h) ;;; ow_free (hd_self h).
+Definition ow_hdr_free (h : ow_hdr) : ow_M unit :=
+  ow_use (ohd_self h) ;;; ow_free (ohd_name h) ;;; ow_free (ohd_value h) ;;; ow_free (ohd_self h).
 
-Definition ow_uri_alloc : M (option ow_uri) :=
+Definition ow_uri_alloc : ow_M (option ow_uri) :=
   u <- ow_malloc ;;
-  match u with None => ow_ret None | Some _ => ow_ret (Some (mk_uri u [None; None; None; None; None; None; None; None])) end.
-Definition ow_uri_free (u : option ow_uri) : M unit :=
+  match u with None => ow_ret None | Some _ => ow_ret (Some (ow_mk_uri u [None; None; None; None; None; None; None; None])) end.
+Definition ow_uri_free (u : option ow_uri) : ow_M unit :=
   match u with
   | None => ow_ret tt
-  | Some u => ow_use (ur_self u) ;;; ow_iter ow_free (ur_fields u) ;;; ow_free (ur_self u)
+  | Some u => ow_use (our_self u) ;;; ow_iter ow_free (our_fields u) ;;; ow_free (our_self u)
   end.
 
-Record ow_tx := mk_tx {
-  tx_self : oid; tx_conn : oid; tx_connp : oid;
-  tx_req_strs : list oid;              (* request_line method uri protocol content_type hostname *)
-  tx_uri_raw : option ow_uri; tx_uri : option ow_uri;
-  tx_auth_user : oid; tx_auth_pass : oid;
-  tx_req_hdrs : option ow_tbl; tx_req_hvals : list ow_hdr;
-  tx_params : option ow_tbl; tx_pvals : list ow_hdr;
-  tx_cookies : option ow_tbl; tx_cvals : list oid;
-  tx_hook_req : option ow_hook; tx_hook_res : option ow_hook;
-  tx_res_strs : list oid;              (* response_line protocol status message content_type *)
-  tx_res_hdrs : option ow_tbl; tx_res_hvals : list ow_hdr;
-  tx_rep : nat                         (* req_header_repetitions *)
+Record ow_tx := ow_mk_tx {
+  otx_self : ow_oid; otx_conn : ow_oid; otx_connp : ow_oid;
+  otx_req_strs : list ow_oid;              (* request_line method uri protocol content_type hostname *)
+  otx_uri_raw : option ow_uri; otx_uri : option ow_uri;
+  otx_auth_user : ow_oid; otx_auth_pass : ow_oid;
+  otx_req_hdrs : option ow_tbl; otx_req_hvals : list ow_hdr;
+  otx_params : option ow_tbl; otx_pvals : list ow_hdr;
+  otx_cookies : option ow_tbl; otx_cvals : list ow_oid;
+  otx_hook_req : option ow_hook; otx_hook_res : option ow_hook;
+  otx_res_strs : list ow_oid;              (* response_line protocol status message content_type *)
+  otx_res_hdrs : option ow_tbl; otx_res_hvals : list ow_hdr;
+  otx_rep : nat                         (* req_header_repetitions *)
 }.
 
 (* htp_tx_destroy_incomplete; the request parsers (urlenp, mpartp) are NULL in the modelled states *)
-Definition ow_tx_destroy_incomplete (tx : ow_tx) : M unit :=
-  ow_use (tx_self tx) ;;;
-  ow_use (tx_conn tx) ;;;                       (* htp_conn_remove_tx(tx->conn, tx) *)
-  ow_use (tx_connp tx) ;;;                      (* htp_connp_tx_remove(tx->connp, tx) *)
-  ow_iter ow_free (tx_req_strs tx) ;;;
-  ow_uri_free (tx_uri_raw tx) ;;;
-  ow_uri_free (tx_uri tx) ;;;
-  ow_free (tx_auth_user tx) ;;;
-  ow_free (tx_auth_pass tx) ;;;
-  (match tx_req_hdrs tx with
+Definition ow_tx_destroy_incomplete (tx : ow_tx) : ow_M unit :=
+  ow_use (otx_self tx) ;;;
+  ow_use (otx_conn tx) ;;;                       (* htp_conn_remove_tx(tx->conn, tx) *)
+  ow_use (otx_connp tx) ;;;                      (* htp_connp_tx_remove(tx->connp, tx) *)
+  ow_iter ow_free (otx_req_strs tx) ;;;
+  ow_uri_free (otx_uri_raw tx) ;;;
+  ow_uri_free (otx_uri tx) ;;;
+  ow_free (otx_auth_user tx) ;;;
+  ow_free (otx_auth_pass tx) ;;;
+  (match otx_req_hdrs tx with
    | None => ow_ret tt
-   | Some t => ow_use (ot_self t) ;;; ow_iter ow_hdr_free (tx_req_hvals tx) ;;; ow_table_destroy (Some t)
+   | Some t => ow_use (oot_self t) ;;; ow_iter ow_hdr_free (otx_req_hvals tx) ;;; ow_table_destroy (Some t)
    end) ;;;
-  ow_iter ow_hdr_free (tx_pvals tx) ;;;
-  ow_table_destroy (tx_params tx) ;;;
-  (match tx_cookies tx with
+  ow_iter ow_hdr_free (otx_pvals tx) ;;;
+  ow_table_destroy (otx_params tx) ;;;
+  (match otx_cookies tx with
    | None => ow_ret tt
-   | Some t => ow_use (ot_self t) ;;; ow_iter ow_free (tx_cvals tx) ;;; ow_table_destroy (Some t)
+   | Some t => ow_use (oot_self t) ;;; ow_iter ow_free (otx_cvals tx) ;;; ow_table_destroy (Some t)
    end) ;;;
-  ow_hook_destroy (tx_hook_req tx) ;;;
-  ow_hook_destroy (tx_hook_res tx) ;;;
-  ow_iter ow_free (tx_res_strs tx) ;;;
-  (match tx_res_hdrs tx with
+  ow_hook_destroy (otx_hook_req tx) ;;;
+  ow_hook_destroy (otx_hook_res tx) ;;;
+  ow_iter ow_free (otx_res_strs tx) ;;;
+  (match otx_res_hdrs tx with
    | None => ow_ret tt
-   | Some t => ow_use (ot_self t) ;;; ow_iter ow_hdr_free (tx_res_hvals tx) ;;; ow_table_destroy (Some t)
+   | Some t => ow_use (oot_self t) ;;; ow_iter ow_hdr_free (otx_res_hvals tx) ;;; ow_table_destroy (Some t)
    end) ;;;
-  ow_free (tx_self tx).
+  ow_free (otx_self tx).
 
 (* ------------------------------------------------------------------ htp_connection.c *)
-Record ow_conn := mk_conn {
-  cn_self : oid;
-  cn_txl : option ow_lst; cn_txs : list (option ow_tx);
-  cn_msgl : option ow_lst; cn_msgs : list ow_log;
-  cn_client : oid; cn_server : oid
+Record ow_conn := ow_mk_conn {
+  ocn_self : ow_oid;
+  ocn_txl : option ow_lst; ocn_txs : list (option ow_tx);
+  ocn_msgl : option ow_lst; ocn_msgs : list ow_log;
+  ocn_client : ow_oid; ocn_server : ow_oid
 }.
 
-Definition ow_conn_create : M (option ow_conn) :=
+Definition ow_conn_create : ow_M (option ow_conn) :=
   c <- ow_malloc ;;
   match c with
   | None => ow_ret None
@@ -425,19 +427,19 @@ Definition ow_conn_create : M (option ow_conn) :=
       m <- ow_list_create c_ow_conn_msg_cap ;;
       match m with
       | None => ow_list_destroy (Some t) ;;; ow_free c ;;; ow_ret None
-      | Some m => ow_ret (Some (mk_conn c (Some t) [] (Some m) [] None None))
+      | Some m => ow_ret (Some (ow_mk_conn c (Some t) [] (Some m) [] None None))
       end
     end
   end.
 
-Definition ow_conn_set_addrs (c : ow_conn) (cl sv : oid) : ow_conn :=
-  mk_conn (cn_self c) (cn_txl c) (cn_txs c) (cn_msgl c) (cn_msgs c) cl sv.
+Definition ow_conn_set_addrs (c : ow_conn) (cl sv : ow_oid) : ow_conn :=
+  ow_mk_conn (ocn_self c) (ocn_txl c) (ocn_txs c) (ocn_msgl c) (ocn_msgs c) cl sv.
 
 (* htp_conn_open after 355cad8: client_addr is cleared when it is released on the error path *)
-Definition ow_conn_open (c : ow_conn) (has_client has_server : bool) : M (bool * ow_conn) :=
-  ow_use (cn_self c) ;;;
-  cl <- (if has_client then ow_malloc else ow_ret (cn_client c)) ;;
-  if has_client && ow_isnull cl then ow_ret (false, ow_conn_set_addrs c None (cn_server c)) else
+Definition ow_conn_open (c : ow_conn) (has_client has_server : bool) : ow_M (bool * ow_conn) :=
+  ow_use (ocn_self c) ;;;
+  cl <- (if has_client then ow_malloc else ow_ret (ocn_client c)) ;;
+  if has_client && ow_isnull cl then ow_ret (false, ow_conn_set_addrs c None (ocn_server c)) else
   if has_server then
     sv <- ow_malloc ;;
     match sv with
@@ -446,13 +448,13 @@ Definition ow_conn_open (c : ow_conn) (has_client has_server : bool) : M (bool *
       ow_ret (false, ow_conn_set_addrs c None None)
     | Some _ => ow_ret (true, ow_conn_set_addrs c cl sv)
     end
-  else ow_ret (true, ow_conn_set_addrs c cl (cn_server c)).
+  else ow_ret (true, ow_conn_set_addrs c cl (ocn_server c)).
 
 (* the code before 355cad8: client_addr keeps pointing to the released string *)
-Definition ow_conn_open_old (c : ow_conn) (has_client has_server : bool) : M (bool * ow_conn) :=
-  ow_use (cn_self c) ;;;
-  cl <- (if has_client then ow_malloc else ow_ret (cn_client c)) ;;
-  if has_client && ow_isnull cl then ow_ret (false, ow_conn_set_addrs c None (cn_server c)) else
+Definition ow_conn_open_old (c : ow_conn) (has_client has_server : bool) : ow_M (bool * ow_conn) :=
+  ow_use (ocn_self c) ;;;
+  cl <- (if has_client then ow_malloc else ow_ret (ocn_client c)) ;;
+  if has_client && ow_isnull cl then ow_ret (false, ow_conn_set_addrs c None (ocn_server c)) else
   if has_server then
     sv <- ow_malloc ;;
     match sv with
@@ -461,26 +463,395 @@ Definition ow_conn_open_old (c : ow_conn) (has_client has_server : bool) : M (bo
       ow_ret (false, ow_conn_set_addrs c cl None)
     | Some _ => ow_ret (true, ow_conn_set_addrs c cl sv)
     end
-  else ow_ret (true, ow_conn_set_addrs c cl (cn_server c)).
+  else ow_ret (true, ow_conn_set_addrs c cl (ocn_server c)).
 
-Definition ow_log_free (l : ow_log) : M unit := ow_use (lg_self l) ;;; ow_free (lg_msg l) ;;; ow_free (lg_self l).
+Definition ow_log_free (l : ow_log) : ow_M unit := ow_use (olg_self l) ;;; ow_free (olg_msg l) ;;; ow_free (olg_self l).
 
-Definition ow_conn_destroy (c : option ow_conn) : M unit :=
+Definition ow_conn_destroy (c : option ow_conn) : ow_M unit :=
   match c with
   | None => ow_ret tt
   | Some c =>
-    ow_use (cn_self c) ;;;
-    (match cn_txl c with
+    ow_use (ocn_self c) ;;;
+    (match ocn_txl c with
      | None => ow_ret tt
      | Some l =>
-       ow_iter (fun t => match t with None => ow_ret tt | Some tx => ow_tx_destroy_incomplete tx end) (cn_txs c) ;;;
+       ow_iter (fun t => match t with None => ow_ret tt | Some tx => ow_tx_destroy_incomplete tx end) (ocn_txs c) ;;;
        ow_list_destroy (Some l)
      end) ;;;
-    (match cn_msgl c with
+    (match ocn_msgl c with
      | None => ow_ret tt
-     | Some l => ow_iter ow_log_free (cn_msgs c) ;;; ow_list_destroy (Some l)
+     | Some l => ow_iter ow_log_free (ocn_msgs c) ;;; ow_list_destroy (Some l)
      end) ;;;
-    ow_free (cn_server c) ;;;
-    ow_free (cn_client c) ;;;
-    ow_free (cn_self c)
+    ow_free (ocn_server c) ;;;
+    ow_free (ocn_client c) ;;;
+    ow_free (ocn_self c)
   end.
+
+Definition ocn_set_txl (c : ow_conn) (l : option ow_lst) : ow_conn :=
+  ow_mk_conn (ocn_self c) l (ocn_txs c) (ocn_msgl c) (ocn_msgs c) (ocn_client c) (ocn_server c).
+Definition ocn_set_txs (c : ow_conn) (l : option ow_lst) (txs : list (option ow_tx)) : ow_conn :=
+  ow_mk_conn (ocn_self c) l txs (ocn_msgl c) (ocn_msgs c) (ocn_client c) (ocn_server c).
+Definition ocn_set_msgs (c : ow_conn) (l : option ow_lst) (ms : list ow_log) : ow_conn :=
+  ow_mk_conn (ocn_self c) (ocn_txl c) (ocn_txs c) l ms (ocn_client c) (ocn_server c).
+
+(* ------------------------------------------------------------------ htp_log (htp_util.c) *)
+(* on = the message passes cfg->log_level.  strdup's result is stored unchecked. *)
+Definition ow_log_msg (on : bool) (connp : ow_oid) (c : ow_conn) : ow_M ow_conn :=
+  ow_use connp ;;;
+  if negb on then ow_ret c else
+  lg <- ow_malloc ;;
+  match lg with
+  | None => ow_ret c
+  | Some _ =>
+    msg <- ow_malloc ;;
+    ow_use (ocn_self c) ;;;
+    match ocn_msgl c with
+    | None => ow_free msg ;;; ow_free lg ;;; ow_ret c
+    | Some l =>
+      r <- ow_list_push l ;;
+      if fst r then ow_ret (ocn_set_msgs c (Some (snd r)) (ocn_msgs c ++ [ow_mk_log lg msg]))
+      else ow_free msg ;;; ow_free lg ;;; ow_ret (ocn_set_msgs c (Some (snd r)) (ocn_msgs c))
+    end
+  end.
+
+Fixpoint ow_log_n (n : nat) (on : bool) (connp : ow_oid) (c : ow_conn) : ow_M ow_conn :=
+  match n with
+  | O => ow_ret c
+  | S m => c1 <- ow_log_msg on connp c ;; ow_log_n m on connp c1
+  end.
+
+(* ------------------------------------------------------------------ htp_tx_create (after 596a86d) *)
+Definition ow_nulls (n : nat) : list ow_oid := repeat None n.
+
+Definition ow_tx_empty (t cn cp : ow_oid) : ow_tx :=
+  ow_mk_tx t cn cp (ow_nulls 6) None None None None None [] None [] None [] None None (ow_nulls 5) None [] 0.
+Definition otx_set_tables (tx : ow_tx) (u : option ow_uri) (rh pa rs : option ow_tbl) : ow_tx :=
+  ow_mk_tx (otx_self tx) (otx_conn tx) (otx_connp tx) (otx_req_strs tx) u (otx_uri tx) (otx_auth_user tx) (otx_auth_pass tx)
+        rh (otx_req_hvals tx) pa (otx_pvals tx) (otx_cookies tx) (otx_cvals tx) (otx_hook_req tx) (otx_hook_res tx)
+        (otx_res_strs tx) rs (otx_res_hvals tx) (otx_rep tx).
+
+(* fixed = the code after 596a86d; before it the result of htp_list_add was ignored: the transaction was
+   returned (to connp->in_tx) although the connection's list does not hold it *)
+Definition ow_tx_create_gen (fixed : bool) (connp : ow_oid) (c : ow_conn) : ow_M (bool * ow_conn) :=
+  t <- ow_malloc ;;
+  match t with
+  | None => ow_ret (false, c)
+  | Some _ =>
+    ow_use connp ;;; ow_use (ocn_self c) ;;;
+    (match ocn_txl c with Some l => ow_use (ool_self l) | None => ow_ret tt end) ;;;
+    let tx0 := ow_tx_empty t (ocn_self c) connp in
+    u <- ow_uri_alloc ;;
+    match u with
+    | None => ow_tx_destroy_incomplete tx0 ;;; ow_ret (false, c)
+    | Some _ =>
+      let tx1 := otx_set_tables tx0 u None None None in
+      rh <- ow_table_create (Nat.div2 c_ow_tx_table_cap) ;;
+      match rh with
+      | None => ow_tx_destroy_incomplete tx1 ;;; ow_ret (false, c)
+      | Some _ =>
+        let tx2 := otx_set_tables tx0 u rh None None in
+        pa <- ow_table_create (Nat.div2 c_ow_tx_table_cap) ;;
+        match pa with
+        | None => ow_tx_destroy_incomplete tx2 ;;; ow_ret (false, c)
+        | Some _ =>
+          let tx3 := otx_set_tables tx0 u rh pa None in
+          rs <- ow_table_create (Nat.div2 c_ow_tx_table_cap) ;;
+          match rs with
+          | None => ow_tx_destroy_incomplete tx3 ;;; ow_ret (false, c)
+          | Some _ =>
+            let tx4 := otx_set_tables tx0 u rh pa rs in
+            match ocn_txl c with
+            | None => ow_tx_destroy_incomplete tx4 ;;; ow_ret (false, c)
+            | Some l =>
+              r <- ow_list_push l ;;
+              if fst r then ow_ret (true, ocn_set_txs c (Some (snd r)) (ocn_txs c ++ [Some tx4]))
+              else if fixed then ow_tx_destroy_incomplete tx4 ;;; ow_ret (false, ocn_set_txl c (Some (snd r)))
+              else ow_ret (true, ocn_set_txl c (Some (snd r)))
+            end
+          end
+        end
+      end
+    end
+  end.
+
+Definition ow_tx_create := ow_tx_create_gen true.
+Definition ow_tx_create_old := ow_tx_create_gen false.
+
+(* ------------------------------------------------------------------ htp_connection_parser.c *)
+Record ow_file := ow_mk_file { ofl_self : ow_oid; ofl_name : ow_oid; ofl_tmp : ow_oid }.
+Record ow_connp := ow_mk_connp {
+  ocp_self : ow_oid; ocp_conn : option ow_conn;
+  ocp_in_buf : ow_oid; ocp_out_buf : ow_oid; ocp_in_hdr : ow_oid; ocp_out_hdr : ow_oid; ocp_put_file : option ow_file
+}.
+Definition ocp_set_conn (p : ow_connp) (c : option ow_conn) : ow_connp :=
+  ow_mk_connp (ocp_self p) c (ocp_in_buf p) (ocp_out_buf p) (ocp_in_hdr p) (ocp_out_hdr p) (ocp_put_file p).
+Definition ocp_set_in_buf (p : ow_connp) (b : ow_oid) : ow_connp :=
+  ow_mk_connp (ocp_self p) (ocp_conn p) b (ocp_out_buf p) (ocp_in_hdr p) (ocp_out_hdr p) (ocp_put_file p).
+
+Definition ow_connp_create : ow_M (option ow_connp) :=
+  p <- ow_malloc ;;
+  match p with
+  | None => ow_ret None
+  | Some _ =>
+    c <- ow_conn_create ;;
+    match c with
+    | None => ow_free p ;;; ow_ret None
+    | Some _ => ow_ret (Some (ow_mk_connp p c None None None None None))
+    end
+  end.
+
+(* htp_connp_destroy_all = htp_conn_destroy(connp->conn) + htp_connp_destroy(connp) *)
+Definition ow_connp_destroy_all (p : option ow_connp) : ow_M unit :=
+  match p with
+  | None => ow_ret tt
+  | Some p =>
+    ow_use (ocp_self p) ;;;
+    ow_conn_destroy (ocp_conn p) ;;;
+    ow_free (ocp_in_buf p) ;;;
+    ow_free (ocp_out_buf p) ;;;
+    (match ocp_put_file p with
+     | None => ow_ret tt
+     | Some f => ow_use (ofl_self f) ;;; ow_free (ofl_name f) ;;; ow_free (ofl_self f)
+     end) ;;;
+    ow_free (ocp_in_hdr p) ;;;
+    ow_free (ocp_out_hdr p) ;;;
+    ow_free (ocp_self p)
+  end.
+
+(* htp_connp_req_buffer: first piece malloc, later pieces realloc *)
+Record ow_rbshape := ow_mk_rbshape { orb_has_data : bool; orb_len0 : bool; orb_over : bool }.
+
+Definition ow_req_buffer (log_on : bool) (sh : ow_rbshape) (in_tx : ow_oid) (p : ow_connp) : ow_M (bool * ow_connp) :=
+  ow_use (ocp_self p) ;;;
+  if negb (orb_has_data sh) then ow_ret (true, p) else
+  if orb_len0 sh then ow_ret (true, p) else
+  (if ow_isnull (ocp_in_hdr p) then ow_ret tt else ow_use (ocp_in_hdr p)) ;;;
+  ow_use in_tx ;;;
+  if orb_over sh then
+    match ocp_conn p with
+    | None => ow_use None ;;; ow_ret (false, p)
+    | Some c => c1 <- ow_log_msg log_on (ocp_self p) c ;; ow_ret (false, ocp_set_conn p (Some c1))
+    end
+  else
+    if ow_isnull (ocp_in_buf p) then
+      b <- ow_malloc ;;
+      match b with
+      | None => ow_ret (false, p)
+      | Some _ => ow_use b ;;; ow_ret (true, ocp_set_in_buf p b)
+      end
+    else
+      b <- ow_realloc (ocp_in_buf p) ;;
+      match b with
+      | None => ow_ret (false, p)
+      | Some _ => ow_use b ;;; ow_ret (true, ocp_set_in_buf p b)
+      end.
+
+(* ------------------------------------------------------------------ htp_request_generic.c *)
+Definition otx_set_req_hdrs (tx : ow_tx) (rh : option ow_tbl) (hv : list ow_hdr) (rep : nat) : ow_tx :=
+  ow_mk_tx (otx_self tx) (otx_conn tx) (otx_connp tx) (otx_req_strs tx) (otx_uri_raw tx) (otx_uri tx) (otx_auth_user tx) (otx_auth_pass tx)
+        rh hv (otx_params tx) (otx_pvals tx) (otx_cookies tx) (otx_cvals tx) (otx_hook_req tx) (otx_hook_res tx)
+        (otx_res_strs tx) (otx_res_hdrs tx) (otx_res_hvals tx) rep.
+Definition otx_set_auth (tx : ow_tx) (u p : ow_oid) : ow_tx :=
+  ow_mk_tx (otx_self tx) (otx_conn tx) (otx_connp tx) (otx_req_strs tx) (otx_uri_raw tx) (otx_uri tx) u p
+        (otx_req_hdrs tx) (otx_req_hvals tx) (otx_params tx) (otx_pvals tx) (otx_cookies tx) (otx_cvals tx) (otx_hook_req tx) (otx_hook_res tx)
+        (otx_res_strs tx) (otx_res_hdrs tx) (otx_res_hvals tx) (otx_rep tx).
+
+(* ohs_prelogs: number of htp_log calls the parser makes before it copies name and value (colon missing,
+   empty name, LWS after name, name not a token -- each once per transaction);
+   ohs_existing: index of the header with the same name (htp_table_get), if any *)
+Record ow_hshape := ow_mk_hshape {
+  ohs_prelogs : nat; ohs_existing : option nat; ohs_ex_repeated : bool; ohs_is_cl : bool; ohs_cl_ambiguous : bool
+}.
+
+(* htp_parse_request_header_generic *)
+Definition ow_parse_request_header (log_on : bool) (prelogs : nat) (connp : ow_oid) (c : ow_conn) (h : ow_hdr)
+  : ow_M (bool * ow_conn * ow_hdr) :=
+  c1 <- ow_log_n prelogs log_on connp c ;;
+  ow_use (ohd_self h) ;;;
+  n <- ow_bstr_dup_mem ;;
+  match n with
+  | None => ow_ret (false, c1, h)
+  | Some _ =>
+    v <- ow_bstr_dup_mem ;;
+    match v with
+    | None => ow_free n ;;; ow_ret (false, c1, ow_mk_hdr (ohd_self h) n None)     (* h->name keeps the released pointer *)
+    | Some _ => ow_ret (true, c1, ow_mk_hdr (ohd_self h) n v)
+    end
+  end.
+
+Fixpoint ow_hv_set_value (l : list ow_hdr) (i : nat) (v : ow_oid) : list ow_hdr :=
+  match l, i with
+  | [], _ => []
+  | h :: r, O => ow_mk_hdr (ohd_self h) (ohd_name h) v :: r
+  | h :: r, S j => h :: ow_hv_set_value r j v
+  end.
+
+(* htp_process_request_header_generic; result: true = HTP_OK *)
+Definition ow_process_request_header (log_on : bool) (sh : ow_hshape) (connp : ow_oid) (c : ow_conn) (tx : ow_tx)
+  : ow_M (bool * ow_conn * ow_tx) :=
+  hs <- ow_malloc ;;
+  match hs with
+  | None => ow_ret (false, c, tx)
+  | Some _ =>
+    r <- ow_parse_request_header log_on (ohs_prelogs sh) connp c (ow_mk_hdr hs None None) ;;
+    let '(ok, c1, h) := r in
+    if negb ok then ow_free hs ;;; ow_ret (false, c1, tx) else
+    ow_use connp ;;; ow_use (otx_self tx) ;;;
+    let free_h := ow_free (ohd_name h) ;;; ow_free (ohd_value h) ;;; ow_free (ohd_self h) in
+    match (match ohs_existing sh with Some i => match nth_error (otx_req_hvals tx) i with Some he => Some (i, he) | None => None end | None => None end) with
+    | Some (i, he) =>
+      ow_use (ohd_self he) ;;;
+      c2 <- (if negb (ohs_ex_repeated sh) then ow_log_msg log_on connp c1 else ow_ret c1) ;;
+      if ohs_ex_repeated sh && negb (otx_rep tx <? c_ow_MAX_HEADERS_REPETITIONS) then
+        free_h ;;; ow_ret (true, c2, tx)
+      else
+        let rep := if ohs_ex_repeated sh then S (otx_rep tx) else otx_rep tx in
+        if ohs_is_cl sh then
+          ow_use (ohd_value he) ;;; ow_use (ohd_value h) ;;;
+          c3 <- (if ohs_cl_ambiguous sh then ow_log_msg log_on connp c2 else ow_ret c2) ;;
+          free_h ;;; ow_ret (true, c3, otx_set_req_hdrs tx (otx_req_hdrs tx) (otx_req_hvals tx) rep)
+        else
+          nv <- ow_bstr_expand (ohd_value he) false false ;;
+          match nv with
+          | None => free_h ;;; ow_ret (false, c2, otx_set_req_hdrs tx (otx_req_hdrs tx) (otx_req_hvals tx) rep)
+          | Some _ =>
+            ow_use nv ;;; ow_use (ohd_value h) ;;;
+            free_h ;;;
+            ow_ret (true, c2, otx_set_req_hdrs tx (otx_req_hdrs tx) (ow_hv_set_value (otx_req_hvals tx) i nv) rep)
+          end
+    | None =>
+      match otx_req_hdrs tx with
+      | None => free_h ;;; ow_ret (true, c1, tx)
+      | Some t =>
+        a <- ow_table_add t (ohd_name h) ;;
+        if fst a then ow_ret (true, c1, otx_set_req_hdrs tx (Some (snd a)) (otx_req_hvals tx ++ [h]) (otx_rep tx))
+        else free_h ;;; ow_ret (true, c1, otx_set_req_hdrs tx (Some (snd a)) (otx_req_hvals tx) (otx_rep tx))
+      end
+    end
+  end.
+
+(* ------------------------------------------------------------------ htp_parse_authorization_basic *)
+Record ow_abshape := ow_mk_abshape { oab_ws_only : bool; oab_dec_empty : bool; oab_has_colon : bool }.
+
+(* result: 0 HTP_OK, 1 HTP_DECLINED, 2 HTP_ERROR.  fixed = the code after d8530c5 *)
+Definition ow_auth_basic_gen (fixed : bool) (sh : ow_abshape) (hdr : ow_hdr) (tx : ow_tx) : ow_M (nat * ow_tx) :=
+  ow_use (ohd_self hdr) ;;; ow_use (ohd_value hdr) ;;;
+  if oab_ws_only sh then ow_ret (1, tx) else
+  tmp <- ow_malloc ;;                                   (* htp_base64_decode_mem *)
+  match tmp with
+  | None => ow_ret (2, tx)
+  | Some _ =>
+    dec <- (if oab_dec_empty sh then ow_ret None else ow_bstr_dup_mem) ;;
+    ow_free tmp ;;;
+    match dec with
+    | None => ow_ret (2, tx)
+    | Some _ =>
+      ow_use dec ;;;
+      if negb (oab_has_colon sh) then ow_free dec ;;; ow_ret (1, tx) else
+      ow_use (otx_self tx) ;;;
+      u <- ow_bstr_dup dec ;;
+      match u with
+      | None => ow_free dec ;;; ow_ret (2, otx_set_auth tx None (otx_auth_pass tx))
+      | Some _ =>
+        p <- ow_bstr_dup dec ;;
+        match p with
+        | None =>
+          ow_free dec ;;; ow_free u ;;;
+          ow_ret (2, otx_set_auth tx (if fixed then None else u) None)
+        | Some _ => ow_free dec ;;; ow_ret (0, otx_set_auth tx u p)
+        end
+      end
+    end
+  end.
+Definition ow_auth_basic := ow_auth_basic_gen true.
+Definition ow_auth_basic_old := ow_auth_basic_gen false.
+
+(* ------------------------------------------------------------------ htp_multipart.c: parts and the C-D parser *)
+Record ow_part := ow_mk_part {
+  opt_self : ow_oid; opt_parser : ow_oid; opt_file : option ow_file;
+  opt_name : ow_oid; opt_value : ow_oid; opt_ctype : ow_oid;
+  opt_hdrs : option ow_tbl; opt_hvals : list ow_hdr
+}.
+Definition opt_set (p : ow_part) (f : option ow_file) (n : ow_oid) : ow_part :=
+  ow_mk_part (opt_self p) (opt_parser p) f n (opt_value p) (opt_ctype p) (opt_hdrs p) (opt_hvals p).
+
+Definition ow_part_create (parser : ow_oid) : ow_M (option ow_part) :=
+  p <- ow_malloc ;;
+  match p with
+  | None => ow_ret None
+  | Some _ =>
+    t <- ow_table_create (Nat.div2 c_ow_part_table_cap) ;;
+    match t with
+    | None => ow_free p ;;; ow_ret None
+    | Some _ => ow_use parser ;;; ow_ret (Some (ow_mk_part p parser None None None None t []))
+    end
+  end.
+
+(* htp_mpart_part_destroy(part, 0) *)
+Definition ow_part_destroy (p : option ow_part) : ow_M unit :=
+  match p with
+  | None => ow_ret tt
+  | Some p =>
+    ow_use (opt_self p) ;;;
+    (match opt_file p with
+     | None => ow_ret tt
+     | Some f => ow_use (ofl_self f) ;;; ow_free (ofl_name f) ;;; ow_free (ofl_tmp f) ;;; ow_free (ofl_self f)
+     end) ;;;
+    ow_free (opt_name p) ;;; ow_free (opt_value p) ;;; ow_free (opt_ctype p) ;;;
+    (match opt_hdrs p with
+     | None => ow_ret tt
+     | Some t => ow_use (oot_self t) ;;; ow_iter ow_hdr_free (opt_hvals p) ;;; ow_table_destroy (Some t)
+     end) ;;;
+    ow_free (opt_self p)
+  end.
+
+Inductive ow_cdp := OwCdName | OwCdFile | OwCdOther.
+Record ow_cdshape := ow_mk_cdshape { ocd_present : bool; ocd_formdata : bool; ocd_params : list ow_cdp; ocd_bad_tail : bool }.
+
+(* the parameter loop of htp_mpart_part_parse_c_d; result: 0 OK, 1 DECLINED, 2 ERROR; fixed = after b69f563 *)
+Fixpoint ow_cd_loop (fixed : bool) (ps : list ow_cdp) (bad_tail : bool) (p : ow_part) : ow_M (nat * ow_part) :=
+  match ps with
+  | [] => ow_ret (if bad_tail then 1 else 0, p)
+  | OwCdName :: r =>
+    if negb (ow_isnull (opt_name p)) then ow_ret (1, p) else
+    n <- ow_bstr_dup_mem ;;
+    match n with
+    | None => ow_ret (2, p)
+    | Some _ => ow_use n ;;; ow_cd_loop fixed r bad_tail (opt_set p (opt_file p) n)
+    end
+  | OwCdFile :: r =>
+    match opt_file p with
+    | Some _ => ow_ret (1, p)
+    | None =>
+      f <- ow_malloc ;;
+      match f with
+      | None => ow_ret (2, p)
+      | Some _ =>
+        ow_use f ;;;
+        fn <- ow_bstr_dup_mem ;;
+        match fn with
+        | None =>
+          ow_free f ;;;
+          ow_ret (2, opt_set p (if fixed then None else Some (ow_mk_file f None None)) (opt_name p))
+        | Some _ => ow_use fn ;;; ow_cd_loop fixed r bad_tail (opt_set p (Some (ow_mk_file f fn None)) (opt_name p))
+        end
+      end
+    end
+  | OwCdOther :: _ => ow_use (opt_parser p) ;;; ow_ret (1, p)
+  end.
+
+Definition ow_part_parse_cd_gen (fixed : bool) (sh : ow_cdshape) (p : ow_part) : ow_M (nat * ow_part) :=
+  ow_use (opt_self p) ;;;
+  (match opt_hdrs p with Some t => ow_use (oot_self t) | None => ow_ret tt end) ;;;
+  if negb (ocd_present sh) then ow_use (opt_parser p) ;;; ow_ret (1, p) else
+  if negb (ocd_formdata sh) then ow_use (opt_parser p) ;;; ow_ret (1, p) else
+  ow_cd_loop fixed (ocd_params sh) (ocd_bad_tail sh) p.
+Definition ow_part_parse_cd := ow_part_parse_cd_gen true.
+Definition ow_part_parse_cd_old := ow_part_parse_cd_gen false.
+
+(* ------------------------------------------------------------------ running *)
+Definition ow_never : nat -> bool := fun _ => false.
+Definition ow_fail_at (k : nat) : nat -> bool := fun n => S n =? k.     (* k = 0: never *)
+Definition ow_init (sched : nat -> bool) : ow_state := ow_mk_os sched 0 0 [] [].
+(* start the observed window: forget the trace of the setup, install the schedule *)
+Definition ow_arm (k : nat) : ow_M unit := fun s => OwOk tt (ow_mk_os (ow_fail_at k) (oos_next s) 0 (oos_live s) []).
